@@ -112,8 +112,8 @@ def CASES(tier, seed):
                                                            write_groups=2 if tier == 'quick' else 4), opts=OA))
     OB = dict(max_paths=40000, max_wall_s=200 if tier == 'quick' else 1500, validate_paths=3, hard_timeout_s=230 if tier == 'quick' else 1700)
     for si, st in enumerate(P1.structs_B(tier, seed)):
-        if (tier == 'quick' and si not in (0, 1, 2, 4, 7, 8, 9)) or st['rank'] > 3:
-            continue  # rank 4 structures: C01 thorough only
+        if (tier == 'quick' and si not in (0, 1, 2, 4, 7, 8, 9)) or st['rank'] > 3 or (tier != 'quick' and P1.dense_size(st) > 64):
+            continue  # rank 4 / large structures: C01 thorough only
         for ci, chunk in enumerate(P1._chunks(opsB, 14 if (tier == 'quick' or st['rank'] <= 3) else 8)):
             cases.append(dict(name=f"B[{si},mod={st['mods']},rank={st['rank']}]ops{ci}:{P1._opsname(chunk)}",
                               fn='alias_case', params=dict(struct=st, ops=chunk, cplx=(si % 2 == 1), subset='draw' if si % 3 else 'all',
